@@ -1005,6 +1005,23 @@ func extractC05(c *ctxT) {
 		def("precompileBridgeCallSetsFromMsg", "Bool", leanBool(preRun != nil && callsNamed(c, preRun.Body, "SetBridgeCallFromMsg")), "the bridgeCall precompile marks its record as BridgeCallFromMsg")
 		a1, _ := callArgs(preRun, "AddOutgoingBridgeCall")
 		def("bridgeCallPrecompileArgs", "List String", leanList(a1), "arguments BridgeCallMethod.Run passes to AddOutgoingBridgeCall")
+		// increaseBridgeFee: MsgServer.IncreaseBridgeFee / IncreaseBridgeFeeMethod.Run -> AddUnbatchedTxBridgeFee, and where the
+		// precompile takes the added fee from (handlerERC20Token with the caller)
+		{
+			var msgArgs []string
+			if fd := c.findFunc(c05Keeper, "MsgServer", "IncreaseBridgeFee"); fd != nil {
+				msgArgs, _ = callArgs(fd, "AddUnbatchedTxBridgeFee")
+			}
+			def("incFeeMsgArgs", "List String", leanList(msgArgs), "arguments MsgServer.IncreaseBridgeFee passes to AddUnbatchedTxBridgeFee")
+			def("incFeeAddParams", "List String", leanList(paramsOf(c.findFunc(c05Keeper, "Keeper", "AddUnbatchedTxBridgeFee"))), "parameter names of AddUnbatchedTxBridgeFee")
+			ifRun := c.findFunc(pre, "IncreaseBridgeFeeMethod", "Run")
+			a5, _ := callArgs(ifRun, "AddUnbatchedTxBridgeFee")
+			def("incFeePrecompileArgs", "List String", leanList(a5), "arguments IncreaseBridgeFeeMethod.Run passes to AddUnbatchedTxBridgeFee")
+			a6, _ := callArgs(ifRun, "handlerERC20Token")
+			def("incFeePrecompileTakeArgs", "List String", leanList(a6), "arguments IncreaseBridgeFeeMethod.Run passes to handlerERC20Token (whose ERC-20 balance pays, which token, how much)")
+			a7, _ := callArgs(ifRun, "ConvertDenomToTarget")
+			def("incFeePrecompileConvertArgs", "List String", leanList(a7), "arguments IncreaseBridgeFeeMethod.Run passes to ConvertDenomToTarget (base coins of the caller -> bridge denom)")
+		}
 		// crossChain precompile: Run -> handlerCrossChain -> outgoingTransfer -> AddToOutgoingPool, then the relation
 		ccRun := c.findFunc(pre, "CrossChainMethod", "Run")
 		a2, _ := callArgs(ccRun, "handlerCrossChain")
